@@ -12,7 +12,7 @@ import (
 func init() {
 	register(&Property{
 		ID:          "C07",
-		Explanation: "Decides structural necessary conditions of 'source maps point every generated token at its true origin' (not the truth of individual mappings): R1 offset pairing — in generateChunkJS/generateChunkCSS every byte string appended to the chunk before or between the mapped files (hashbang, banner, directives, IIFE prologue, cross-chunk prefix, path comments, unmapped files) is matched by an advance of the running generated offset with the very same value, or by the reset that follows a mapped file's own bytes; a prologue emitted without advancing the offset shifts every mapping of the next file, and bundler snapshots contain no mappings; R2 the four routines that turn bytes into generated line/column positions (LineColumnOffset.AdvanceBytes, .AdvanceString, ChunkBuilder.updateGeneratedLineAndColumn, GenerateLineOffsetTables) use the same line-terminator set {CR, LF, U+2028, U+2029}, the same CR-LF coalescing test and the same UTF-16 width threshold; R4 substituteFinalPaths records a source-map shift for exactly the pieces it substitutes, advancing `Before` by the placeholder and `After` by the replacement that was written. R5 in generateSourceMapForChunk, after the running decoder state is overwritten with a chunk's EndState every path to the next chunk stores an OriginalName computed from the state's own OriginalName (rebase or restore), so a chunk without names does not reset the running name index. R6 offset-handover: a source-map entry carries the accumulated generated offset only on paths that reset the accumulator. R7 first-mapping-rebase: every DecodeVLQ value of AppendSourceMapChunk is used and each position field of the start state is updated from a decoded delta. R8 vlq-delta-accumulated: in every VLQ decoding loop each decoded and used delta is added to a running total on every path that stays in the loop (decoder-failure edges pruned). NOT covered: truth of each mapping, VLQ arithmetic, composition through input source maps, sourcesContent.",
+		Explanation: "Decides structural necessary conditions of 'source maps point every generated token at its true origin' (not the truth of individual mappings): R1 offset pairing — in generateChunkJS/generateChunkCSS every byte string appended to the chunk before or between the mapped files (hashbang, banner, directives, IIFE prologue, cross-chunk prefix, path comments, unmapped files) is matched by an advance of the running generated offset with the very same value, or by the reset that follows a mapped file's own bytes; a prologue emitted without advancing the offset shifts every mapping of the next file, and bundler snapshots contain no mappings; R2 the four routines that turn bytes into generated line/column positions (LineColumnOffset.AdvanceBytes, .AdvanceString, ChunkBuilder.updateGeneratedLineAndColumn, GenerateLineOffsetTables) use the same line-terminator set {CR, LF, U+2028, U+2029}, the same CR-LF coalescing test and the same UTF-16 width threshold; R4 substituteFinalPaths records a source-map shift for exactly the pieces it substitutes, advancing `Before` by the placeholder and `After` by the replacement that was written. R5 in generateSourceMapForChunk, after the running decoder state is overwritten with a chunk's EndState every path to the next chunk stores an OriginalName computed from the state's own OriginalName (rebase or restore), so a chunk without names does not reset the running name index. R6 offset-handover: a source-map entry carries the accumulated generated offset only on paths that reset the accumulator. R7 first-mapping-rebase: every DecodeVLQ value of AppendSourceMapChunk is used and each position field of the start state is updated from a decoded delta. R8 vlq-delta-accumulated: in every VLQ decoding loop each decoded and used delta is added to a running total on every path that stays in the loop (decoder-failure edges pruned). R9 nested-name-wins: the read of inputSourceMap.Names in appendMapping is not control dependent on the incoming name. NOT covered: truth of each mapping, VLQ arithmetic, composition through input source maps, sourcesContent.",
 		Run: func(p *Prog, tier string) []*RuleResult {
 			return []*RuleResult{c07OffsetPairing(p), c07NewlineSiblings(p), c07ShiftSibling(p), c07StateCarry(p), c07OffsetHandover(p), c07FirstMappingRebase(p), c07VLQDeltaAccumulated(p), c07NestedNameWins(p)}
 		},
